@@ -5,7 +5,7 @@
 # then runs every claimed check against the changed copy. On success stores the change under /verif/seeded/<ID>-<x>/.
 p="$1"; x="$2"
 src=/tmp/seed/$p.out
-id=$(echo $p | tr a-z A-Z)-${3:-$x}
+id=$(echo ${p:0:3} | tr a-z A-Z)-${3:-$x}
 scr=$(mktemp -d /tmp/hvcseed.XXXXXX)
 export GOFLAGS=-mod=mod GOPROXY=off GOSUMDB=off GOTOOLCHAIN=local
 rsync -a --exclude .git /repo/ "$scr/repo/"
@@ -54,7 +54,7 @@ if [ "$confirmed" = yes ]; then
 import sys,json,re
 dst,id_,p,x,caught,d=sys.argv[1:7]
 notes=open('/tmp/seed/%s.out/NOTES.md'%p).read()
-meta={"id":id_,"breaks_property":p.upper(),"origin":"independent sub-agent given only the property text and a scratch worktree",
+meta={"id":id_,"breaks_property":p[:3].upper(),"origin":"independent sub-agent given only the property text and a scratch worktree",
  "demo_package_dir":d,
  "confirmed":{"build_with_change":"ok","existing_suite_with_change":"ok","demo_with_change":"fails","demo_without_change":"passes","how":"tools/confirm_seed.sh %s %s (scratch copy of /repo HEAD, removed afterwards)"%(p,x)},
  "caught_by":caught.split(),"source_letter":x,
